@@ -15,10 +15,8 @@ def settleLoop : Nat → Sys → Sys
   | 0, c => c
   | fuel + 1, c =>
       if serverRunnable c.s then
-        let s' := pollServer c.s c.now
-        -- a stream that yielded an item has not parked: its consumer polls it again
-        let s' := if s'.nextVis > c.s.nextVis && !s'.dropped && s'.done.isNone then { s' with woken := true } else s'
-        settleLoop fuel { c with s := s' }
+        -- (`pollServer` leaves a stream that yielded an item runnable: its consumer polls it again)
+        settleLoop fuel { c with s := pollServer c.s c.now }
       else match firstWokenExec c.s with
         | some v => settleLoop fuel { c with s := pollExec c.s v c.now }
         | none => c
